@@ -307,3 +307,21 @@ Definition law_close_with_real_pgs (s : st) (e : ev) (s' : st) (o : outcome) : b
             (bool_decide (sst (srv s') q = Some SClosing))
   | None => true
   end.
+
+(* ---------- quiescent end states: the lister has caught up and nothing is pending ---------- *)
+(* a child that is not closed / closing although its parent (on the server) is *)
+Definition open_child_under_closed_parent (s : st) (c : positive) : bool :=
+  match srv s !! c with
+  | Some co =>
+      negb (is_closedish (q_state co)) &&
+      match q_parent co with
+      | Some p => match sst (srv s) p with Some x => is_closedish x | None => false end
+      | None => false
+      end
+  | None => false
+  end.
+(* "closing a parent closes its children" / "a child cannot be opened under a closed or
+   closing parent", as a statement about every quiescent state *)
+Definition law_children_follow_closed_parent (s' : st) : bool :=
+  implb (caught_up s')
+        (forallb (fun c => negb (open_child_under_closed_parent s' c)) (map fst (map_to_list (srv s')))).
